@@ -1,11 +1,12 @@
 #!/bin/sh
 # Builds the conformance harness crates offline against /repo's current working tree (hooks on).
+# crates.txt lists the harness crates that registered checks use.
 set -e
 here="$(cd "$(dirname "$0")" && pwd)"
-for d in "$here"/harness "$here"/h_*; do
-  [ -f "$d/Cargo.toml" ] || continue
+for c in $(cat "$here/crates.txt"); do
+  d="$here/$c"
   [ -f "$d/Cargo.lock" ] || cp /repo/Cargo.lock "$d/Cargo.lock"
   (cd "$d" && CARGO_NET_OFFLINE=true cargo build --offline -q)
-  echo "built $d"
+  echo "built $c"
 done
 mkdir -p "$here/out" "$here/evidence"
